@@ -292,8 +292,8 @@ theorem producedGroups_spec (sch : Schema) (inFields : List FieldS) (script : Li
     exact this p hp
 
 theorem processM_ok (sch : Schema) (s s' : Suite) (b : Int) (g : Bool) (script : List Resp)
-    (sel : Option (String × String)) (hp : processM sch s b g script sel = (s', none)) :
-    ∃ inFields items gs, processInput sch (clearAt s (affectedIdx sch)) sel = .ok (inFields, items)
+    (sel : Option (String × String)) (src : Option Suite) (hp : processM sch s b g script sel src = (s', none)) :
+    ∃ inFields items gs, inputOf sch s src sel = .ok (inFields, items)
       ∧ producedGroups sch inFields script items = (gs, none)
       ∧ process s b g (affectedIdx sch) gs.flatten = (s', none) := by
   unfold processM at hp
